@@ -39,8 +39,9 @@
 (*                                                                         *)
 (* Constants selecting code-as-written / required / hypothetical variants: *)
 (*   HeadPolicy  "aswritten": when the line of the named file cannot be    *)
-(*               read (file shorter than the #line number) comsgPrintLine  *)
-(*               prints NO heading, so the file is not named at all;       *)
+(*               read (sposLineText fails: the file that a #line names is  *)
+(*               shorter) comsgPrintLine prints NO heading, so the file is *)
+(*               not named at all;                                         *)
 (*               "required": the heading is printed, without echo.         *)
 (*   Grouping    "gline" as written; "lline" = runs of equal LOCAL line    *)
 (*               number (a plausible wrong implementation: TLC must find   *)
@@ -57,7 +58,8 @@ CONSTANTS HeadPolicy,   \* "aswritten" | "required"
           MaxSel        \* exhaustive environment: lines chosen per report
 
 \* values for ColSeq (a configuration file cannot spell a sequence)
-ColSeqOvf == << 3, 1, 9, 4 >>        \* at CNO = 2: two columns fit, two saturate
+ColSeqOvf == << 3, 1, 9 >>           \* at CNO = 2: columns 3 and 9 are shown alike (9 saturates)
+ColSeqOv4 == << 3, 1, 9, 4 >>
 ColSeqFit == << 3, 1, 2 >>
 ColSeqTwo == << 3, 1 >>
 
@@ -106,25 +108,52 @@ Leads(Tb, run, ColOf(_)) ==
                        ELSE acc.out],
            [last |-> 0, out |-> << >>], run).out
 
-\* comsgPrintLine for the run's first position; Av(f, l): line l of the file named f can be read
-Group(Tb, run, Av(_, _), ColOf(_)) ==
-  LET d    == Decode(Tb, run[1].p)
-      ok   == ~d.special /\ Av(d.file, d.line)
-      head == ~d.special /\ (ok \/ HeadPolicy = "required")
-  IN [head   |-> head,
-      file   |-> IF head THEN d.file ELSE "",
-      line   |-> IF head THEN d.line ELSE -1,
-      echo   |-> ok,                     \* the text shown is line `line' of file `file'
-      carets |-> Dots(run, ColOf),
-      leads  |-> Leads(Tb, run, ColOf)]
+(* sposLineText(): the text of line lno of the file named f, read with a     *)
+(* one-entry cache (lastfname, lastlno, lastftell) that lets a later lookup  *)
+(* in the same file continue where the previous one stopped.  FLen(f) is the *)
+(* number of lines the file has on disk; a file offset is modelled as the    *)
+(* number of the line that starts there (FLen(f) + 1 = end of file).  The    *)
+(* lookup fails (rc = -1) when the end of the file is met while lines are    *)
+(* skipped; when no line has to be skipped it succeeds even at the end of    *)
+(* the file, with an empty text.                                             *)
+CacheInit == [f |-> NoName, lno |-> 1, pos |-> 1]
 
-Report(Tb, ms, sort, Av(_, _), ColOf(_)) ==
-  LET runs == SplitRuns(Tb, IF sort THEN SortMsgs(ms) ELSE ms) IN
-  [i \in 1..Len(runs) |-> Group(Tb, runs[i], Av, ColOf)]
+LineText(cs, f, lno, FLen(_)) ==
+  LET cont == cs.f = f /\ cs.lno <= lno
+      i0   == IF cont THEN cs.lno ELSE 1
+      p0   == IF cont THEN cs.pos ELSE 1
+      n    == FLen(f)
+      ok   == p0 + (lno - i0) <= n + 1
+      p1   == IF ok THEN p0 + (lno - i0) ELSE n + 1
+  IN [ok |-> ok,
+      at |-> IF ok /\ p1 <= n THEN p1 ELSE 0,        \* the line whose text is returned (0: empty text)
+      cs |-> [f |-> f, lno |-> lno + 1, pos |-> IF ok /\ p1 <= n THEN p1 + 1 ELSE n + 1]]
+
+\* comsgPrintLine for the run's first position, then the dots and the leads
+Group(Tb, run, FLen(_), ColOf(_), cs) ==
+  LET d    == Decode(Tb, run[1].p)
+      lt   == IF d.special THEN [ok |-> FALSE, at |-> 0, cs |-> cs] ELSE LineText(cs, d.file, d.line, FLen)
+      head == ~d.special /\ (lt.ok \/ HeadPolicy = "required")
+  IN [cs  |-> lt.cs,
+      grp |-> [head   |-> head,
+               file   |-> IF head THEN d.file ELSE "",
+               line   |-> IF head THEN d.line ELSE -1,
+               echo   |-> IF lt.ok THEN lt.at ELSE 0,     \* the text shown is line `echo' of file `file' (0: none)
+               carets |-> Dots(run, ColOf),
+               leads  |-> Leads(Tb, run, ColOf)]]
+
+Groups(Tb, runs, FLen(_), ColOf(_), cs0) ==
+  FoldLeft(LAMBDA acc, run : LET r == Group(Tb, run, FLen, ColOf, acc.cs) IN
+                             [cs |-> r.cs, out |-> Append(acc.out, r.grp)],
+           [cs |-> cs0, out |-> << >>], runs)
+
+\* [cs |-> cache afterwards, out |-> the groups printed]
+Report(Tb, ms, sort, FLen(_), ColOf(_), cs0) ==
+  Groups(Tb, SplitRuns(Tb, IF sort THEN SortMsgs(ms) ELSE ms), FLen, ColOf, cs0)
 
 \* -Mpreview: every message is reported alone when it is generated
-Preview(Tb, ms, Av(_, _), ColOf(_)) ==
-  [i \in 1..Len(ms) |-> Group(Tb, << ms[i] >>, Av, ColOf)]
+Preview(Tb, ms, FLen(_), ColOf(_), cs0) ==
+  Groups(Tb, [i \in 1..Len(ms) |-> << ms[i] >>], FLen, ColOf, cs0)
 
 ----------------------------------------------------------------------------
 (* The requirement.  w = [g, rf, rl, c, tx, id]; ShownCol(w) is the column  *)
@@ -141,12 +170,12 @@ ReqRuns(s) ==
              ELSE Append(acc, << w >>),
            << >>, s)
 
-ReqGroup(run, Av(_, _), ShownCol(_)) ==
+ReqGroup(run, FLen(_), ShownCol(_)) ==
   LET w == run[1] IN
   [head   |-> TRUE,
    file   |-> w.rf,
    line   |-> w.rl,
-   echo   |-> Av(w.rf, w.rl),
+   echo   |-> IF w.rl >= 1 /\ w.rl <= FLen(w.rf) THEN w.rl ELSE 0,
    carets |-> FoldLeft(LAMBDA acc, x :
                          LET c == ShownCol(x) IN
                          [cno |-> c + 1, out |-> IF c >= acc.cno THEN Append(acc.out, c) ELSE acc.out],
@@ -158,9 +187,9 @@ ReqGroup(run, Av(_, _), ShownCol(_)) ==
                                    ELSE acc.out],
                        [last |-> 0, out |-> << >>], run).out]
 
-ReqReport(ws, sort, Av(_, _), ShownCol(_)) ==
+ReqReport(ws, sort, FLen(_), ShownCol(_)) ==
   LET runs == ReqRuns(IF sort THEN FoldLeft(LAMBDA s, w : ReqInsert(s, w, ShownCol), << >>, ws) ELSE ws) IN
-  [i \in 1..Len(runs) |-> ReqGroup(runs[i], Av, ShownCol)]
+  [i \in 1..Len(runs) |-> ReqGroup(runs[i], FLen, ShownCol)]
 
 \* consequences worth stating on their own (both follow from equality with ReqReport):
 \* every lead stands under a heading naming its own file and line ...
@@ -181,7 +210,7 @@ OneHeadingPerLine(rep, ws) ==
 (* message per column of ColSeq (texts repeat, so the not-repeated rule is  *)
 (* exercised), sorted and unsorted.                                         *)
 
-AvEx(f, l) == l >= 1 /\ l <= SrcLen
+FLenEx(f)  == SrcLen
 ShownEx(w) == ColFun(Packer, w.c)
 ColEx(m)   == SposChar(m.p)
 
@@ -196,8 +225,8 @@ LineChoices(n) ==
 FaithfulFor(sel, sort) ==
   LET ws  == FoldLeft(LAMBDA acc, i : acc \o WMsgs(i), << >>, sel)
       ms  == [k \in 1..Len(ws) |-> PackMsg(ws[k])]
-      rep == Report(T, ms, sort, AvEx, ColEx)
-  IN /\ rep = ReqReport(ws, sort, AvEx, ShownEx)
+      rep == Report(T, ms, sort, FLenEx, ColEx, CacheInit).out
+  IN /\ rep = ReqReport(ws, sort, FLenEx, ShownEx)
      /\ UnderOwnHeading(rep, ws)
      /\ sort => OneHeadingPerLine(rep, ws)
 
@@ -205,7 +234,9 @@ Usable == \A i \in 1..Len(wits) : Representable(wits[i])
 
 ReportFaithful ==
   (done /\ Usable) =>
-     /\ \A sel \in LineChoices(Len(wits)) : \A sort \in BOOLEAN : FaithfulFor(sel, sort)
+     /\ \A sel \in LineChoices(Len(wits)) :
+           /\ FaithfulFor(sel, FALSE)
+           /\ (\A a \in 1..(Len(sel) - 1) : sel[a] < sel[a + 1]) => FaithfulFor(sel, TRUE)   \* sorting forgets the order of generation
      /\ FaithfulFor([i \in 1..Len(wits) |-> i], TRUE)          \* all lines in one report
 
 \* the same for messages whose columns fit the field only (code as written before the column fix)
